@@ -141,7 +141,7 @@ impl<'a> Files<'a> for &'a CodeMap {
         let mut filename = self.find_file(file.low()).name().to_string();
         if let Some(relative_from) = &self.paths_relative_from {
             if let Some(path) = diff_paths(&filename, relative_from) {
-                filename = path.to_str().unwrap().into();
+                filename = path.to_string_lossy().into();
             }
         }
         Ok(filename)
